@@ -4,6 +4,13 @@ Oracle: the Lean model `Model/Balanced.lean` run at `α := Float` by the driver;
 bit for bit (hex of the binary64 pattern, any NaN = "nan").  The raw (unbalanced) result of the same
 query is measured on the implementation and handed to the model, so a range-query defect (C03) is
 not this property's alarm.
+
+Verdict per (window, configuration, form): the implementation's values equal the model's (the exact
+operand bracketing of today's code) — or, if they do not, they must satisfy the Lean contract
+`denseOk` / `sparseOk` / `pixelsOk`: every value bit-equal to *some* bracketing of
+raw × wt(row bin) × wt(column bin) (`products3`).  Only a contract failure (or a wrong error/ok
+outcome) is a mismatch; a mere change of bracketing is counted in the evidence
+(`bracketing_differs`).  See STRICT_ASSOCIATION.
 """
 from __future__ import annotations
 
@@ -26,8 +33,10 @@ LEVELS = {"matrix": "top", "dump": "top", "constants": "unit", "arith": "unit"}
 DESCRIBE = {
     "matrix": "Cooler.matrix(balance=b, divisive_weights=d, sparse/as_pixels)[i0:i1, j0:j1] for EVERY window of one "
               "(store, weight columns) pair vs Lean coolerDense/coolerSparse/coolerPixels (Float) fed with the raw "
-              "(balance=False) result of the same query; bit-for-bit; missing column must raise in all three forms",
-    "dump": "`cooler dump -b` (with/without -r/-r2, --join, -f) vs Lean dumpBalanced fed with the rows of the same dump without -b",
+              "(balance=False) result of the same query; bit-for-bit, falling back to the Lean contract denseOk/sparseOk/pixelsOk "
+              "(some bracketing of raw x wt(row) x wt(col)); a missing column must raise in all three forms",
+    "dump": "`cooler dump -b` (with/without -r/-r2, --join, -f) vs Lean dumpBalanced (fallback: contract "
+            "pixelsOk) fed with the rows of the same dump without -b; no `weight` column => non-zero exit",
     "constants": "cooler.api._4DN_DIVISIVE_WEIGHTS vs Lean divisiveNames (default divisive flag per name)",
     "arith": "trusted-base self-test: Lean Float `*`, `1.0/x`, Float.ofInt and hex marshalling vs numpy float64 (bit for bit)",
 }
